@@ -48,8 +48,10 @@ def run_shard (cid, spec, tmpdir, idx, timeout):
   with open(sp, "w") as f: json.dump(spec, f)
   t0 = time.time()
   try:
-    p = subprocess.run([PY, "-X", "faulthandler", "-m", "pvm.worker", cid,
-                        sp, op],
+    # (a shard whose spec says so runs with assertions stripped, python -O)
+    opt = ["-O"] if spec.get("no_asserts") else []
+    p = subprocess.run([PY, "-X", "faulthandler"] + opt +
+                       ["-m", "pvm.worker", cid, sp, op],
                        env=worker_env(), cwd=HERE, timeout=timeout,
                        stdout=subprocess.PIPE, stderr=subprocess.PIPE)
   except subprocess.TimeoutExpired as e:
@@ -97,7 +99,8 @@ def main (argv=None):
     with open(args.replay) as f:
       rp = json.load(f)
     specs = [dict(replay=rp["witness"], key=rp.get("key"),
-                  verbose_logs=bool((rp.get("spec") or {}).get("verbose_logs")))]
+                  verbose_logs=bool((rp.get("spec") or {}).get("verbose_logs")),
+                  no_asserts=bool((rp.get("spec") or {}).get("no_asserts")))]
   else:
     specs = mod.plan(args.tier, seed)
     for i, s in enumerate(specs):
@@ -108,6 +111,10 @@ def main (argv=None):
       # every fourth shard runs with the log level at DEBUG (see env.boot)
       s.setdefault("verbose_logs", os.environ.get("PVM_VERBOSE_LOGS", "") == "all"
                    or (i % 4 == 3 and os.environ.get("PVM_VERBOSE_LOGS", "") != "none"))
+      # ... and every fourth (another one) with assertions stripped, as
+      # `python -O pox.py` runs a controller
+      s.setdefault("no_asserts", os.environ.get("PVM_NO_ASSERTS", "") == "all"
+                   or (i % 4 == 1 and os.environ.get("PVM_NO_ASSERTS", "") != "none"))
 
   default_to = getattr(mod, "TIMEOUT", {}).get(args.tier, 900
                                                 if args.tier == "quick"
